@@ -1,11 +1,11 @@
 import json, os, subprocess
 
 SPEC = {
-    "lean_modules": ["SemaModel.C02.Props", "SemaModel.Compose.Props", "SemaModel.Compose.RankProps", "SemaModel.C02.Tie"],
+    "lean_modules": ["SemaModel.C02.Props", "SemaModel.Compose.Props", "SemaModel.Compose.RankProps", "SemaModel.C02.Tie", "SemaModel.Compose.AcceptProps", "SemaModel.Compose.AcceptRank"],
     "lean_dirs": ["SemaModel/C02", "SemaModel/Compose"],
     "harness": "c02",
-    "harness_args": {"quick": ["-shards", 48, "-batches", 14, "-searches", 18, "-searchx", 6, "-rank", 200],
-                     "thorough": ["-shards", 500, "-batches", 22, "-searches", 24, "-searchx", 8, "-rank", 2500]},
+    "harness_args": {"quick": ["-shards", 48, "-batches", 14, "-searches", 18, "-searchx", 6, "-rank", 200, "-accept", 60, "-acceptbatches", 12],
+                     "thorough": ["-shards", 500, "-batches", 22, "-searches", 24, "-searchx", 8, "-rank", 2500, "-accept", 600, "-acceptbatches", 14]},
     "timeout": {"quick": 600, "thorough": 3000},
     "level": "proof",
     "tie": "T2: tools/facts_c02 extracts (go/ast) the operator table of IndexInverted.Search, the arms of processChange and getOperation, the array combinators and what string.go lower-cases into Generated/FactsC02.lean on every run; SemaModel/C02/Lemmas.lean pins each table next to the model definition transcribing it; T1: the key functions in every theorem are the toByteSortable_* definitions of SemaModel/Generated/Sortable.lean, regenerated from shard/index/inverted/sortable.go on every run; T3: the hand-written model of inverted.go / string.go / array.go / dispatch.go / search.go (SemaModel/C02/Model.lean) and a real shard (bbolt file and memory backend) are run on the same histories of write batches and queries, comparing every query answer and a dump of every index bucket after every batch; the specification of each query is additionally evaluated straight from the documents against the real answers (oracle)",
@@ -23,12 +23,23 @@ SPEC = {
         "Sema.Compose.Compose_flat_state", "Sema.Compose.Compose_flat_exact", "Sema.Compose.Compose_flat_count",
         "Sema.Compose.Compose_flat_no_closer", "Sema.Compose.Compose_text_state", "Sema.Compose.Compose_text_exact",
         "Sema.Compose.Compose_hybrid_state", "Sema.Compose.Compose_hybrid",
+        # acceptance, independently specified (SemaModel/Compose/Accept{Model,Lemmas,Props}.lean, notes/Accept.md): the verdict the
+        # combined model COMPUTES (C01's checks, C02's typesOk / refused on the model's own change stream) is EQUIVALENT to
+        # `Acceptable`, a predicate on the reference map and the documents that calls none of the model's functions; the
+        # reference history is rebuilt from it (`refRun`) and the refinement / exactness theorems restated against that
+        "Sema.Compose.Accept_iff", "Sema.Compose.Accept_iff_out", "Sema.Compose.Accept_unacceptable_noop",
+        "Sema.Compose.Accept_inv_step", "Sema.Compose.Accept_inv_history", "Sema.Compose.Accept_refStep",
+        "Sema.Compose.Compose_refines_independent_spec", "Sema.Compose.Compose_filter_exact_independent",
+        "Sema.Compose.Compose_rejects_all_refuted",
+        # … and for the state WITH ranking indexes (SemaModel/Compose/AcceptRank.lean): rankVerdict / fullVerdict / rspecHist eliminated
+        "Sema.Compose.Accept_rank_iff", "Sema.Compose.Accept_rank_inv_step", "Sema.Compose.Compose_rank_refines_independent_spec",
         # tie theorems (SemaModel/C02/Tie.lean, notes/T1ext.md section 7): model functions = definitions generated from the Go source
         "Sema.C02.C02_tie_getOperation", "Sema.C02.C02_tie_getOperation_prevErr", "Sema.C02.C02_tie_getOperation_curErr",
         "Sema.C02.C02_tie_getOperation_ok", "Sema.C02.C02_tie_toChange", "Sema.C02.C02_tie_toArrChange",
         "Sema.C02.C02_tie_search_arms", "Sema.C02.C02_tie_search_range", "Sema.C02.C02_tie_search_inRange_err",
     ],
     "trusted_base": [
+        "SemaModel/Compose/AcceptModel.lean (`jsonAt`, `hasKind`, `conforms`, `Acceptable`, `refRun`: the INDEPENDENT specification of which batches a shard accepts — written from docs/content/docs/concepts/indexing.md and manage/points.md on JSON-like values, using no function of the implementation model) is tied to the code by a fourth correspondence run: `go/cmd/c02 -accept` generates histories whose batches sit on the boundary of `Acceptable` (one offending document among valid ones, every type mismatch per index kind incl. integer-valued floats under an integer index and integers under a float index, blocked nested paths incl. null in the middle, merged sizes max-1 / max / max+1, repeated and stored ids, offending patches for unknown ids, a document broken and repaired inside one update, zero-length data); a batch the Go reading of the documentation expects to be refused runs in a CHILD process (replay of the accepted history on a fresh shard + the batch; verdict, and on the file backend the state afterwards, which must be the state before); `semadriver C02 accept` prints the combined model's result and, beside it (`acc=`), the decision of `Acceptable` evaluated in Lean on the reference map — one line diff compares model = code on the result and specification = code on acceptance; a verdict that contradicts the Go reading is an oracle failure with the history as replay; a child that dies after a correct rejection is the known finding of C07 (counted, not judged)",
         "SemaModel/Compose/RankModel.lean (the combined model extended by the ranking indexes: per vectorFlat entry the set of (node id, vector) pairs, per text entry C05's index, both fed by the same change stream; C04's flat search, C05's text search and C02's filter leaves under C06's searchParallel / back-fill / paging) is tied to the code by a third correspondence run: the compiled model (`semadriver C02 rank`) answers histories on real shards with an integer, a vectorFlat (2-d integer grid, squared Euclidean: exact, ties frequent) and a text index (tokens from the real bleve analyser, idf table from Go's math.Log10) — every write, a dump of the flat bucket and of the text postings after every batch, plain and hybrid `searchr` requests compared modulo ties (groups of equal hybrid score; a tie cut by a plain query's limit by size only); vectors, distances, scores and weights are abstract in every theorem, the driver instantiates them with grid coordinates, exact naturals and IEEE float32 bit patterns; quantizer none, vector dimension = index dimension (C18), rejected batches are not in this stream",
         "SemaModel/Compose/Model.lean (the combined model: C01's point store + C02's indexes + C06's answer pipeline; new in it: the change stream of a batch, the index verdict, one write step for both, searchPoints) is tied to the code by a second correspondence run: the compiled combined model (`semadriver C02 compose`) answers every op line of the same histories — allocating the node ids itself, compared with the ones the shard allocated — plus `searchx` lines (select / sort / offset / limit through the whole SearchPoints pipeline); a stored top-level value is opaque text in the point store and is read by two parameters (Conv.idx, Conv.sel) — theorems hold for every such pair, the driver's pair is the value syntax of the op lines",
         "SemaModel/C02/Model.lean is a hand transcription of inverted.go, string.go, array.go, dispatch.go/utils.go (getOperation, casts) and search.go; tied to the code by the correspondence run only (answers and bucket dumps)",
@@ -43,7 +54,10 @@ SPEC = {
     "assumptions": [
         "float values and float query values are not NaN (NaN cannot be written through the JSON API)",
         "queries are those models.Query.Validate accepts: non-empty _and/_or lists, non-empty string-array query, property present in the schema with the matching type, no startsWith on numbers",
-        "on the file backend no indexed string (or string-array element) folds to the empty string: bbolt refuses the empty key and the batch is rejected (DESIGN section 8 no. 14); run on the real code in a child process, recorded, not judged",
+        "on the file backend no indexed string (or string-array element) folds to the empty string: bbolt refuses the empty key and the batch is rejected (DESIGN section 8 no. 14); run on the real code in a child process, recorded, not judged. It is the exact boundary of Accept_iff on the file backend (hypothesis BoltStep / BoltOK; witnessed in AcceptProps.lean: the batch IS Acceptable and the file-backed model refuses it, the memory-backed one takes it)",
+        "property paths of the schema run through OBJECTS only: no segment of an indexed property name is empty, `*` or a decimal number. msgpack's Decoder.Query — which dispatch.go uses — treats a numeric segment as an ARRAY INDEX, `*` as every element (the index takes the first) and an empty segment as the END of the path, whereas C02's `Val.query` / `Val.pathOk` and the specification's `jsonAt` treat an array on the way as blocking the path and look an empty segment up as the key \"\" (the API layer's CheckCompatibleMap refuses arrays on a path as well). Tested on the real code on every run (probes path-array-index, path-array-star, path-array-name, path-empty-segment, path-empty-name of the accept stream, pinned outcomes in the evidence; a drift breaks the run)",
+        "a point id is an opaque symbol in the models: it stands for the PARSED uuid. `_id` queries parse their values with uuid.Parse, so upper-case hex, `urn:uuid:`, braces and the 32-digit form name the same point and any other text fails the whole search; the harness sends canonical lower-case text only. Tested on every run (probe id-canonical-forms)",
+        "an integer value is an msgpack int64 and a float value an msgpack float64 (what the API layer writes after CheckCompatibleMap): the shard refuses int8 … uint64 under an integer index and float32 under a float index, and at the shard API integers and floats do NOT mix (3.0 under an integer index and 3 under a float index are refused — in the compared stream); the conversions the documentation's JSON examples rely on happen in CheckCompatibleMap (which also truncates 3.7 to 3 and refuses an explicit null or \"_delete\" under an integer index). Tested on every run (probes int-narrow-encoding, int-uint64, float-float32, api-check-compatible-map)",
     ],
 }
 
@@ -71,15 +85,18 @@ def run(ctx):
     p = lambda *a: os.path.join(rundir, *a)
     have_compose = os.path.exists(p("compose", "ops.txt"))
     have_rank = os.path.exists(p("rank", "ops.txt"))
+    have_accept = os.path.exists(p("accept", "ops.txt"))
     # the model runs are independent: run them side by side
     from concurrent.futures import ThreadPoolExecutor
-    with ThreadPoolExecutor(max_workers=3) as ex:
+    with ThreadPoolExecutor(max_workers=4) as ex:
         f1 = ex.submit(r.run_driver, "C02", p("ops.txt"), p("model.txt"))
         f2 = ex.submit(r.run_driver, "C02", p("compose", "ops.txt"), p("compose", "model.txt"), ("compose",)) if have_compose else None
         f3 = ex.submit(r.run_driver, "C02", p("rank", "ops.txt"), p("rank", "model.txt"), ("rank",)) if have_rank else None
+        f4 = ex.submit(r.run_driver, "C02", p("accept", "ops.txt"), p("accept", "model.txt"), ("accept",)) if have_accept else None
         ok, err = f1.result()
         ok2, err2 = f2.result() if f2 else (False, "")
         ok3, err3 = f3.result() if f3 else (False, "")
+        ok4, err4 = f4.result() if f4 else (False, "")
     if not ok:
         res["broken"].append(("driver-run", "semadriver C02", err[-2000:]))
     else:
@@ -126,6 +143,34 @@ def run(ctx):
             stats["samples"] = stats.get("samples", []) + [s for s in rst.get("samples", []) if s.startswith("searchr")][:4]
     else:
         res["broken"].append(("harness-run", "c02 -rank", "the harness wrote no rank/ops.txt"))
+    # ACCEPTANCE: histories of batches on the boundary of `Acceptable` (refused ones run in child processes); the driver
+    # prints the combined model's result and the decision of the independent predicate; pinned assumptions of the models
+    if have_accept:
+        if not ok4:
+            res["broken"].append(("driver-run", "semadriver C02 accept", err4[-2000:]))
+        else:
+            dis, n = r.diff_lines(p("accept", "ops.txt"), p("accept", "impl.txt"), p("accept", "model.txt"))
+            for d in dis:
+                d["mode"] = "acceptance stream (semadriver C02 accept): `<result>` is the combined model's, `acc=` the independent predicate's; replay the history (from its aschema line) up to this line"
+            res["disagreements"] += dis
+            res["compared"] += n
+            ast = json.load(open(p("accept", "stats.json")))
+            stats["accept_op_lines"] = ast.get("evaluations", 0)
+            stats["accept_distinct_nontrivial"] = ast.get("distinct_nontrivial", 0)
+            stats["accept_counts"] = ast.get("counts", {})
+            stats["accept_boundary_classes"] = ast.get("boundary_classes", {})
+            stats["accept_assumptions"] = ast.get("assumptions", [])
+            for k, v in ast.get("distribution", {}).items():
+                if k.startswith("ainsert") or k.startswith("aupdate") or k.startswith("adelete"):
+                    stats.setdefault("distribution", {})["accept:" + k] = v
+                    stats["evaluations"] = stats.get("evaluations", 0) + v
+            stats["samples"] = stats.get("samples", []) + [s for s in ast.get("samples", []) if s.startswith("ainsert") or s.startswith("aupdate")][:4]
+            for a in ast.get("assumption_drift", []) or []:
+                res["broken"].append(("assumption", "accept-probe " + a.get("name", "?"),
+                                      "a behaviour of the real code that the models assume (props/C02.py assumptions) changed: " + a.get("what", "") +
+                                      " -- expected: " + a.get("expected", "") + " -- observed: " + a.get("observed", "")))
+    elif "-accept" in [str(a) for a in SPEC["harness_args"][tier]]:
+        res["broken"].append(("harness-run", "c02 -accept", "the harness wrote no accept/ops.txt"))
     res["stats"] = stats
     return res
 
